@@ -60,6 +60,10 @@ CHECKS = {
   text="Bounded symbolic model checking of the real eigenvector routines around the eigh/qr stubs: 1x1 and diagonal-flag fast paths, shape validation, eigh configuration returns the decomposition's Q of the input, zero estimate falls back to eigh, QR iteration factors A@Q_prev each step, stops exactly by the relative-change/tolerance rule or the count, and returns the last Q with columns in ascending Rayleigh-quotient order (all orderings explored, z3 on linearised normal forms).",
   note="Trusted: orthonormality / ordering / diagonalisation of eigh and qr outputs are LAPACK's contract (assumed); the fixed-point clause is not decided; n<=3, max_iterations<=3 (n=2) / 1 (n=3).",
   ref="DESIGN.md section 3 C12"),
+ "C06": dict(
+  text="Bounded symbolic model checking on the stand-in's lock-step rank simulator: R simulated ranks run the real DDPDistributor/optimizer (threads passing one baton, all_gather as rendezvous with deadlock detection, per-rank logs of process-group creations and collectives); per path (symbolic hyperparameters, values, gradients, presence) every rank's parameters are proved equal to the serial run, all members of a communicator issue the same collectives, all ranks create the same multi-member groups in the same order, each block's state lives on one rank of its group. Counterexamples are replayed with real multi-process gloo under a timeout.",
+  note="Trusted: the simulator checks the SPMD contract, not backend timing (equal collective sequences => interleaving independence is the standard SPMD argument); world<=4 (8 thorough), T=2, FP32 communication only (reduced-precision rounding not modelled in this round); as C01 otherwise. Two genuine defects are recorded in known_findings.json (rank starvation; per-owner mesh creation for 1<group<world).",
+  ref="DESIGN.md section 3 C06"),
 }
 NA = {
  "C18": "the compiled step exists only as TorchDynamo/AOTAutograd output traced over real torch; it cannot be executed on symbolic tensors or translated to SMT within reach",
